@@ -24,7 +24,8 @@ pub fn report(k: &str, rows: &[String]) { println!("OBS {{\"k\": {:?}, \"rows\":
 
 def key_of(c):
     return ("G" if c["generic"] else "") + "enum[" + ",".join(
-        f"{v['k']}({''.join(v['tys'])}){'!' if v['ign'] else ''}" for v in c["vs"]) + "]"
+        f"{v['k']}({''.join(t.lower() if fi else t for t, fi in zip(v['tys'], v['fign']))}){'!' if v['ign'] else ''}"
+        for v in c["vs"]) + "]"
 
 
 def tyname(t, c, i, j):
@@ -59,6 +60,9 @@ def build(c, key):
         tys = list(v["tys"])
         if gen_pos == i:
             tys[0] = "T"
+        # field-level #[try_into(ignore)] (only meaningful, and only registered, when TryInto is derived)
+        if "TryInto" in derives:
+            tys = [("#[try_into(ignore)] " if fi else "") + t for t, fi in zip(tys, v["fign"])]
         ign = "".join(f"#[{a}(ignore)] " for a in ["is_variant", "unwrap", "try_unwrap", "try_into"]
                       if a.replace("_", "") in [d.lower() for d in derives] or a in ("is_variant", "try_into", "try_unwrap", "unwrap")) if v["ign"] else ""
         if v["ign"]:
@@ -74,7 +78,9 @@ def build(c, key):
             vals.append(f"E::{nm}(" + ", ".join(fv) + ")")
             pats.append(f"E::{nm}(" + ", ".join(f"f{j}" for j in range(len(tys))) + ")")
         else:
-            decls.append(f"{ign}{nm} {{ " + ", ".join(f"{'xy'[j]}: {t}" for j, t in enumerate(tys)) + " }")
+            decls.append(f"{ign}{nm} {{ " + ", ".join(
+                (f"#[try_into(ignore)] {'xy'[j]}: {t[len('#[try_into(ignore)] '):]}" if t.startswith("#[try_into") else f"{'xy'[j]}: {t}")
+                for j, t in enumerate(tys)) + " }")
             vals.append(f"E::{nm} {{ " + ", ".join(f"{'xy'[j]}: {fv[j]}" for j in range(len(tys))) + " }")
             pats.append(f"E::{nm} {{ " + ", ".join(f"{'xy'[j]}: f{j}" for j in range(len(tys))) + " }")
     forms = "".join(f"#[{a}(owned, ref, ref_mut)]\n" for a, d in [("unwrap", "Unwrap"), ("try_unwrap", "TryUnwrap"),
@@ -125,13 +131,14 @@ def build(c, key):
             tt = "()" if n == 0 else (T[0] if n == 1 else "(" + ", ".join(T) + ")")
             rt = "()" if n == 0 else ("&" + T[0] if n == 1 else "(" + ", ".join("&" + t for t in T) + ")")
             ok = list(T) in [list(t) for t in c["okTargets"][a]]
-            fvals = ", ".join(f"{t}({10 * (a + 1) + j})" for j, t in enumerate(va["tys"]))
+            live = [j - 1 for j in c["liveIdx"][a]]
+            fvals = ", ".join(f"{va['tys'][j]}({10 * (a + 1) + j})" for j in live)
             want_dbg = "()" if n == 0 else (fvals if n == 1 else f"({fvals})")
             tk = "".join(T) or "unit"
             body.append(f'rows.push(format!("try_into {a} {tk} {{}}", match <{tt}>::try_from(vals[{a}].clone()) {{ Ok(f) => format!("{{:?}}", f), Err(e) => String::from(if e.input == vals[{a}] {{ "err_same" }} else {{ "err_changed" }}) }}));')
             exp.append(f"try_into {a} {tk} {want_dbg if ok else 'err_same'}")
             if n >= 1:
-                addr_f = ", ".join(f"ad(f{j})" for j in range(n))
+                addr_f = ", ".join(f"ad(f{j})" for j in live) if ok else ""
                 addr_r = "ad(r)" if n == 1 else ", ".join(f"ad(r.{j})" for j in range(n))
                 want_expr = f"match &vals[{a}] {{ {pats[a]} => vec![{addr_f}], _ => vec![] }}" if ok else "Vec::<usize>::new()"
                 body.append(f'rows.push(format!("try_into_ref {a} {tk} {{}}", match <{rt}>::try_from(&vals[{a}]) {{ Ok(r) => {{ let want = {want_expr}; String::from(if vec![{addr_r}] == want {{ "same" }} else {{ "other" }}) }}, Err(e) => String::from(if ad(e.input) == ad(&vals[{a}]) {{ "err_same" }} else {{ "err_changed" }}) }}));' if ok or True else "")
